@@ -2,6 +2,7 @@
 \* Iterate and batches of <= 2 writes
 SPECIFICATION MCSpec
 CONSTANTS
+  FlushWraps = {"flush"}
   Threads = {t1, t2, t3}
   CallsPerThread = 2
   MaxCommitOps = 2
